@@ -152,3 +152,81 @@ func VerifC15_Gapped() {
 	verifObserve("c15g", tl, ql, len(hits), gapped)
 	verifReach("end")
 }
+
+// VerifC15_TwoTraps: two trapezoids whose hits share a start point. Target and query carry a
+// common block X, `subs` substituted letters, a common block Y and non-matching flanks; one
+// trapezoid lies on X, the other on Y (extending back from Y crosses the substitutions and
+// reaches the start of X). The query positions selected by `sym` are symbolic letters.
+func VerifC15_TwoTraps() {
+	xl, yl, subs, fl := verifParam("xlen"), verifParam("ylen"), verifParam("subs"), verifParam("flank")
+	order, mask := verifParam("order"), verifParam("sym")
+	minLen, minIdPct, k := verifParam("minlen"), verifParam("minid"), verifParam("k")
+	vecBuffering = 8
+	code := func(c byte) int {
+		switch c {
+		case 'a':
+			return 0
+		case 'c':
+			return 1
+		case 'g':
+			return 2
+		}
+		return 3
+	}
+	var tc, qc []int
+	for i := 0; i < fl; i++ {
+		tc, qc = append(tc, 3), append(qc, 2) // t... against g...
+	}
+	for i := 0; i < xl; i++ {
+		c := code(verifTemplate[i])
+		tc, qc = append(tc, c), append(qc, c)
+	}
+	for i := 0; i < subs; i++ {
+		tc, qc = append(tc, 0), append(qc, 1) // a against c
+	}
+	for i := 0; i < yl; i++ {
+		c := code(verifTemplate[xl+1+i])
+		tc, qc = append(tc, c), append(qc, c)
+	}
+	for i := 0; i < fl; i++ {
+		tc, qc = append(tc, 3), append(qc, 2)
+	}
+	for i := range qc {
+		if mask&(1<<uint(i)) != 0 {
+			qc[i] = verifInt("q"+string(rune('a'+i)), 0, 3)
+		}
+	}
+	mk := func(name string, c []int) *linear.Seq {
+		ls := make([]alphabet.Letter, len(c))
+		for i, x := range c {
+			ls[i] = alphabet.Letter("acgt"[x])
+		}
+		return linear.NewSeq(name, ls, alphabet.DNA)
+	}
+	target, query := mk("t", tc), mk("q", qc)
+	tl, ql := len(tc), len(qc)
+	minId := float64(minIdPct) / 100
+	a := NewAligner(target, query, k, minLen, minId)
+	a.Costs = &Costs{MaxIGap: 5, DiffCost: 3, SameCost: 1, MatchCost: 4, BlockCost: 15, RMatchCost: 4}
+	trapX := filter.Trapezoid{Bottom: fl, Top: fl + xl, Left: -2, Right: 2}
+	trapY := filter.Trapezoid{Bottom: fl + xl + subs, Top: fl + xl + subs + yl, Left: -2, Right: 2}
+	traps := filter.Trapezoids{trapX, trapY}
+	if order == 1 {
+		traps = filter.Trapezoids{trapY, trapX}
+	}
+	hits := a.AlignTraps(traps)
+	for _, h := range hits {
+		ab, ae := verifConcrete(h.Abpos), verifConcrete(h.Aepos)
+		bb, be := verifConcrete(h.Bbpos), verifConcrete(h.Bepos)
+		inside := 0 <= ab && ab <= ae && ae <= tl && 0 <= bb && bb <= be && be <= ql
+		verifAssert(inside, "hit-within-both-sequences")
+		if !inside {
+			continue
+		}
+		verifAssert(ae-ab >= minLen && be-bb >= minLen, "hit-at-least-minimum-length-on-both")
+		verifAssert(h.Error <= 1-minId, "reported-error-within-one-minus-identity")
+		verifAssert(h.Score <= verifGlobal(tc[ab:ae], qc[bb:be]), "score-not-above-optimal-global-score-of-the-regions")
+	}
+	verifObserve("c15t", tl, ql, len(hits))
+	verifReach("end")
+}
